@@ -11,8 +11,10 @@
 (*                           GetAllReceivedMessages returns per type        *)
 (*   InitiateRet{k,err}      Initiate returns nil / an error                *)
 (*   Can{k,res}              CanTransition of state k evaluated to res      *)
-(*   Receive{k,t,s,n}        Receive on state k; the message is admitted    *)
-(*                           (ReceiveToHistory) in the same critical section*)
+(*   Receive{k,t,s,n}        Receive on state k entered; the message is     *)
+(*                           admitted (ReceiveToHistory) in the same        *)
+(*                           critical section                               *)
+(*   ReceiveRet{k}           Receive returns                                *)
 (*   Next{k,res}             Next of state k entered; res = state|nil|err   *)
 (*   Cancel                  the machine's context was cancelled            *)
 (*   Arrive{t,s,n} / Drop    handler invoked / no live registration         *)
@@ -28,7 +30,7 @@ TInit == Init /\ l = 1 /\ HwmInit
 
 TReset ==
     /\ IsEvent("Reset")
-    /\ pc' = "idle" /\ cur' = 1
+    /\ pc' = "idle" /\ lp' = "select" /\ cur' = 1
     /\ init' = [k \in States |-> "idle"]
     /\ history' = Empty /\ queue' = <<>>
     /\ ctxDone' = FALSE /\ registered' = FALSE
@@ -69,13 +71,18 @@ TReceive ==
     /\ IsEvent("Receive")
     /\ Ev.k = cur
     /\ queue # <<>> /\ Head(queue) = Msg(Ev.t, Ev.s, Ev.n)
-    /\ HandOff
+    /\ HandOffBegin
+
+TReceiveRet ==
+    /\ IsEvent("ReceiveRet")
+    /\ Ev.k = cur
+    /\ HandOffEnd
 
 TNextEv ==
     /\ IsEvent("Next")
     /\ Ev.k = cur
-    /\ init[cur] = "signalled"
-    /\ pc = "running"
+    /\ init[cur] = "signalled"     \* Next only on a state that reported it can move on
+    /\ pc = "running" /\ lp = "select"
     /\ CASE Ev.res = "state" -> cur < N /\ Transition
          [] Ev.res = "nil"   -> cur = N /\ UNCHANGED vars
          [] Ev.res = "err"   -> "next" \in Faults /\ UNCHANGED vars
@@ -113,7 +120,7 @@ TReturn ==
 \* the ticker goroutine ending on ctx.Done() leaves no trace
 Silent1 == l' = l /\ TickerStop
 
-TNext == TReset \/ TExec \/ TInitiate \/ TInitiateRet \/ TCan \/ TReceive \/ TNextEv
+TNext == TReset \/ TExec \/ TInitiate \/ TInitiateRet \/ TCan \/ TReceive \/ TReceiveRet \/ TNextEv
          \/ TCancel \/ TArrive \/ TDrop \/ TReturn
 TSpec == TInit /\ [][TNext]_tvars
 
